@@ -92,6 +92,8 @@ def check_cases(cases: list[dict], rep: Report, known: dict) -> None:
     ncs = []
     ecs = []
     for c in cases:
+        if rep.stop():
+            break
         e = wire.build_raw(c["e"])
         p = wire.build_point(c["p"])
         x = X.Variable(c["x"]) if c["xobj"] else c["x"]
